@@ -108,6 +108,44 @@ impl Server {
         }
     }
 
+    /// Start the server the way the `iwes` binary does: the library is read from disk.
+    pub fn start_from_disk(base_path: &str, ext: &str) -> Server {
+        let (tx, rx) = crossbeam_channel::unbounded();
+        set_panic_channel(Some(tx));
+        let (connection, client) = Connection::memory();
+        let mut configuration = Configuration::default();
+        configuration.markdown.refs_extension = ext.to_string();
+        let base = base_path.to_string();
+        let thread = std::thread::Builder::new()
+            .name(LOOP_THREAD.to_string())
+            .stack_size(8 * 1024 * 1024)
+            .spawn(move || {
+                iwes::main_loop(
+                    connection,
+                    iwes::ServerParams {
+                        state: None,
+                        sequential_ids: None,
+                        client_name: None,
+                        configuration,
+                        base_path: base,
+                    },
+                )
+                .map_err(|e| e.to_string())
+            })
+            .expect("spawn server");
+        Server {
+            client,
+            thread: Some(thread),
+            next_id: NEXT_ID.fetch_add(1, std::sync::atomic::Ordering::SeqCst),
+            panic_rx: rx,
+            loop_panics: vec![],
+            server_requests: vec![],
+            extra_responses: vec![],
+            worker_panics: vec![],
+            timeout: Duration::from_secs(30),
+        }
+    }
+
     pub fn notify(&self, method: &str, params: Value) -> bool {
         self.client
             .sender
